@@ -32,6 +32,24 @@ func BPlusTreeStore.Mutate
   loop 1 invariant C14/keys-so-far-are-prefix-plus-key: forall k int :: 0 <= k && k <= rangeindex ==> allocated(storedKey(old(insCount) + k)) && keyOf(storedKey(old(insCount) + k), mutations[k])
   loop 1 invariant C14/values-so-far-as-given: forall k int :: 0 <= k && k <= rangeindex ==> allocated(storedVal(old(insCount) + k)) && bytes(storedVal(old(insCount) + k)) == bytes(mutations[k].Value)
 
+// Range reads: every pair returned has a stored key (table prefix + user key; the user key
+// handed out is the stored key without its first byte, hence lbytes(.., 1)) that lies within
+// the inclusive bounds prefix+start .. prefix+end in the order the tree and bytes.Compare use.
+// ("Every key in the range is returned" is the B-tree's in-order iteration, assumed.)
+define stored(k) = lbytes(k, 1)
+func BPlusTreeStore.GetRange
+  props C14
+  requires s.db != nil
+  modifies nothing
+  ensures isnil(result_1)
+  ensures C14/range-within-bounds: forall k int :: 0 <= k && k < len(result_0) ==> lexle(cat(b1(prefixOf(table)), bytes(start)), stored(result_0[k].Key)) && lexle(stored(result_0[k].Key), cat(b1(prefixOf(table)), bytes(end)))
+  call 6 invariant C14/bound-keys-are-prefix-plus-bounds: bytes(startKey) == cat(b1(prefixOf(table)), bytes(start)) && bytes(endKey) == cat(b1(prefixOf(table)), bytes(end))
+  call 6 invariant C14/range-within-bounds: forall k int :: 0 <= k && k < len(local(result)) ==> lexle(bytes(startKey), stored(local(result)[k].Key)) && lexle(stored(local(result)[k].Key), bytes(endKey))
+func BPlusTreeStore.GetRange.$1
+  props C14
+  requires istype(i, KVItem) && len(dyn(i, KVItem).Key) >= 1
+  modifies nothing
+
 func BPlusTreeStore.Get
   props C14
   requires s.db != nil
